@@ -8,7 +8,7 @@
 From DV Require Import Model.Base Model.NameCheck Model.Parser Model.Header Model.Readers Model.Uncompress Model.Mutate
   Spec.NameSpec Spec.PacketSpec Spec.RecordSpec Spec.PlainSpec Proofs.ListLemmas Proofs.Hoare Proofs.ParserInv Proofs.ParseSound
   Proofs.NameIff Proofs.ReadersAgree Proofs.QuestionSpec Proofs.HeaderBits Proofs.WalkValues Proofs.WalkSkip Proofs.PlainWf Proofs.EdnsPlain
-  Proofs.InsertSpec Proofs.HeaderInv Proofs.Chain Proofs.SetTtlInv Proofs.DeleteInv Proofs.SetNameInv.
+  Proofs.InsertSpec Proofs.HeaderInv Proofs.Chain Proofs.SetTtlInv Proofs.DeleteInv Proofs.SetNameInv Proofs.ReplaceInv Proofs.Totality.
 From Coq Require Import ZifyBool ZifyNat ZifyN.
 
 Definition with_cursor (off : nat) (m : cm unit) : cm unit :=
@@ -18,7 +18,8 @@ Inductive hop3 : Type :=
 | H3Base (o : hop2)
 | H3Delete (off : nat)
 | H3SetTtl (off : nat) (t : N)
-| H3SetName (off : nat) (nm : bytes).
+| H3SetName (off : nat) (nm : bytes)
+| H3SetIp (off : nat) (ip : bytes).
 
 Definition run_hop3 (o : hop3) : cm unit :=
   match o with
@@ -26,6 +27,7 @@ Definition run_hop3 (o : hop3) : cm unit :=
   | H3Delete off => with_cursor off m_delete
   | H3SetTtl off t => with_cursor off (m_set_ttl t)
   | H3SetName off nm => with_cursor off (m_set_raw_name nm)
+  | H3SetIp off ip => with_cursor off (m_set_ip ip)
   end.
 
 (** [off] is where a non-OPT record of a record section starts *)
@@ -38,6 +40,7 @@ Definition hop3_ok_at (v : ppacket) (o : hop3) : Prop :=
   | H3Delete off => record_starts v off
   | H3SetTtl off t => record_starts v off /\ (t < 4294967296)%N
   | H3SetName off nm => record_starts v off /\ bytes_ok nm
+  | H3SetIp off ip => record_starts v off /\ bytes_ok ip
   end.
 
 Fixpoint run_hops3 (ops : list hop3) (s : st) : st * res unit :=
@@ -78,10 +81,25 @@ Proof.
   eapply u16_at_same; [| |exact Hw0]; eapply write_at_nth; try exact Ew; lia.
 Qed.
 
+Lemma set_ip_flags ip v it s' : m_set_ip ip (v, it) = (s', Ok tt) ->
+  forall w0, u16_at (pp_packet v) 2 w0 -> u16_at (pp_packet (fst s')) 2 w0.
+Proof.
+  unfold m_set_ip, cbind, getv, getit, clift, putv. cbn [fst snd]. intros H w0 Hw0.
+  destruct (it_rr_type v it) as [t| |]; try (inversion H; fail).
+  destruct (slice_from (pp_packet v) (it_name_end it) 691) as [rd| |]; try (inversion H; fail). unfold DNS_RR_HEADER_SIZE in H.
+  destruct (t =? TYPE_A)%N.
+  - destruct (negb (length ip =? 4)); [inversion H|]. destruct (length rd <? 10 + 4); [inversion H|].
+    destruct (write_at (pp_packet v) (it_name_end it + 10) ip 693) as [p'| |] eqn:Ew; try (inversion H; fail).
+    inversion H; subst s'. cbn [fst pp_with_packet pp_packet]. eapply u16_at_same; [| |exact Hw0]; eapply write_at_nth; try exact Ew; lia.
+  - destruct (t =? TYPE_AAAA)%N; [|inversion H]. destruct (negb (length ip =? 16)); [inversion H|]. destruct (length rd <? 10 + 16); [inversion H|].
+    destruct (write_at (pp_packet v) (it_name_end it + 10) ip 695) as [p'| |] eqn:Ew; try (inversion H; fail).
+    inversion H; subst s'. cbn [fst pp_with_packet pp_packet]. eapply u16_at_same; [| |exact Hw0]; eapply write_at_nth; try exact Ew; lia.
+Qed.
+
 Theorem hop3_keeps_dinv : forall o v it s1, dinv v -> is_response (pp_packet v) -> it_section it <> SQuestion -> hop3_ok_at v o ->
   run_hop3 o (v, it) = (s1, Ok tt) -> dinv (fst s1) /\ snd s1 = it /\ is_response (pp_packet (fst s1)).
 Proof.
-  intros o v it s1 Hd Hr Hsec Ho E. destruct o as [o|off|off t|off nm]; cbn [run_hop3 hop3_ok_at] in E, Ho.
+  intros o v it s1 Hd Hr Hsec Ho E. destruct o as [o|off|off t|off nm|off ip]; cbn [run_hop3 hop3_ok_at] in E, Ho.
   - exact (hop2_keeps_dinv o v it s1 Hd Hr Ho E).
   - destruct Ho as (qls & qt & lA & lN & lR & r & x & Rd & Hin & Hno & <-).
     destruct (reading_record_in _ _ _ _ _ _ Rd r x Hin) as (_ & e & Hrec).
@@ -108,6 +126,13 @@ Proof.
       as (Hd' & (n & ls & A & Nn & R & A' & Nn' & R' & X1 & r0 & X2 & Hrest)).
     cbv zeta in Hrest. destruct Hrest as (_ & _ & _ & _ & _ & _ & _ & _ & _ & _ & _ & _ & _ & Hfl).
     split; [exact Hd'|]. split; [reflexivity|]. destruct Hr as (w & Hw & Hq). exists w. split; [exact (Hfl w Hw)|exact Hq].
+  - destruct Ho as ((qls & qt & lA & lN & lR & r & x & Rd & Hin & Hno & <-) & Hbi).
+    destruct (reading_record_in _ _ _ _ _ _ Rd r x Hin) as (_ & e & Hrec).
+    unfold with_cursor in E. unfold cbind at 1 in E. rewrite (cursor_on v it r e (di_bytes _ Hd) Hrec Hsec) in E.
+    match type of E with context [m_set_ip ip (v, ?c)] => set (cur := c) in * end.
+    destruct (m_set_ip ip (v, cur)) as [s2 [u| |]] eqn:Eset; inversion E; subst s1. destruct u. cbn [fst snd].
+    destruct (set_ip_keeps_dinv v cur ip s2 qls qt lA lN lR r x Hd Hbi Rd Hin eq_refl eq_refl Eset) as (Hd' & _).
+    split; [exact Hd'|]. split; [reflexivity|]. destruct Hr as (w & Hw & Hq). exists w. split; [exact (set_ip_flags _ _ _ _ Eset w Hw)|exact Hq].
 Qed.
 
 Theorem hops3_keep_dinv : forall ops v it s', dinv v -> is_response (pp_packet v) -> it_section it <> SQuestion -> ok_along ops (v, it) ->
@@ -119,4 +144,71 @@ Proof.
     destruct (run_hop3 o (v, it)) as [s1 [u| |]] eqn:E; try discriminate. destruct u.
     destruct (hop3_keeps_dinv o v it s1 Hd Hr Hsec Ho E) as (Hd1 & Hit1 & Hr1).
     destruct s1 as [v1 it1]. cbn [fst snd] in *. subst it1. apply (IH v1 it s' Hd1 Hr1 Hsec Hrest H).
+Qed.
+
+(** ** Every such history runs to the end: no step has a [Panic] outcome, a step that reports an error changes nothing *)
+Fixpoint run_hops3_tol (ops : list hop3) (s : st) : st * res unit :=
+  match ops with
+  | [] => (s, Ok tt)
+  | o :: ops' => match run_hop3 o s with (s1, Ok _) => run_hops3_tol ops' s1 | (s1, Err _) => run_hops3_tol ops' s1 | (s1, Panic x) => (s1, Panic x) end
+  end.
+
+Fixpoint ok_along_tol (ops : list hop3) (s : st) : Prop :=
+  match ops with
+  | [] => True
+  | o :: ops' => hop3_ok_at (fst s) o /\ match run_hop3 o s with (s1, Ok _) => ok_along_tol ops' s1 | (s1, Err _) => ok_along_tol ops' s1 | _ => True end
+  end.
+
+Lemma with_cursor_on v it r e m : bytes_ok (pp_packet v) -> record_at (pp_packet v) r e -> it_section it <> SQuestion ->
+  with_cursor (rv_off r) m (v, it) =
+  (let '(s1, r0) := m (v, it_set (it_set it (Some (rv_off r)) (it_offset_next it) (it_name_end it)) (Some (rv_off r)) e (rv_name_end r)) in ((fst s1, it), r0)).
+Proof. intros Hb Hrec Hsec. unfold with_cursor. unfold cbind at 1. rewrite (cursor_on v it r e Hb Hrec Hsec). reflexivity. Qed.
+
+Lemma hop3_outcome o v it : dinv v -> is_response (pp_packet v) -> it_section it <> SQuestion -> hop3_ok_at v o ->
+  (exists s1, run_hop3 o (v, it) = (s1, Ok tt)) \/ (exists e, run_hop3 o (v, it) = ((v, it), Err e)).
+Proof.
+  intros Hd Hr Hsec Ho. destruct o as [o|off|off t|off nm|off ip]; cbn [run_hop3 hop3_ok_at] in *.
+  - destruct (run_hop2 o (v, it)) as [s1 [u|e|x]] eqn:E.
+    + destruct u. left. eauto.
+    + right. exists e. f_equal.
+      destruct o as [sec rx| |n|n|n| |n]; cbn [run_hop2] in E;
+        [exact (failed_insert_on_dinv _ _ _ _ _ _ Hd E)|rewrite (recompute_keeps_dinv v it Hd) in E; discriminate| | | | |];
+        exact (setter_err_state _ _ _ _ _ E).
+    + exfalso. exact (hop2_no_panic o v it s1 x Hd Ho E).
+  - destruct Ho as (qls & qt & lA & lN & lR & r & x & Rd & Hin & Hno & <-).
+    destruct (reading_record_in _ _ _ _ _ _ Rd r x Hin) as (_ & e & Hrec).
+    assert (He : e = rv_name_end r + 10 + rv_rdlen r) by (destruct Hrec as (_ & _ & _ & _ & _ & He & _); exact He).
+    left. rewrite (with_cursor_on v it r e _ (di_bytes _ Hd) Hrec Hsec).
+    match goal with |- context [m_delete (v, ?c)] => set (cur := c) end.
+    destruct (delete_total v cur qls qt lA lN lR r x Hd Rd Hin Hno eq_refl eq_refl He) as (s2 & ->). eauto.
+  - destruct Ho as ((qls & qt & lA & lN & lR & r & x & Rd & Hin & Hno & <-) & Ht).
+    destruct (reading_record_in _ _ _ _ _ _ Rd r x Hin) as (_ & e & Hrec).
+    left. rewrite (with_cursor_on v it r e _ (di_bytes _ Hd) Hrec Hsec).
+    match goal with |- context [m_set_ttl t (v, ?c)] => set (cur := c) end.
+    destruct (set_ttl_total v cur t qls qt lA lN lR r x Hd Rd Hin ltac:(discriminate) eq_refl) as (s2 & ->). eauto.
+  - destruct Ho as ((qls & qt & lA & lN & lR & r & x & Rd & Hin & Hno & <-) & Hbn).
+    destruct (reading_record_in _ _ _ _ _ _ Rd r x Hin) as (_ & e & Hrec).
+    assert (He : e = rv_name_end r + 10 + rv_rdlen r) by (destruct Hrec as (_ & _ & _ & _ & _ & He & _); exact He).
+    rewrite (with_cursor_on v it r e _ (di_bytes _ Hd) Hrec Hsec).
+    match goal with |- context [m_set_raw_name nm (v, ?c)] => set (cur := c) end.
+    destruct (set_raw_name_outcome nm v cur qls qt lA lN lR r x Hd Hbn Rd Hin Hno eq_refl eq_refl He Hsec) as [(s2 & ->)|(e2 & ->)]; [left; eauto|].
+    right. exists e2. reflexivity.
+  - destruct Ho as ((qls & qt & lA & lN & lR & r & x & Rd & Hin & Hno & <-) & Hbi).
+    destruct (reading_record_in _ _ _ _ _ _ Rd r x Hin) as (_ & e & Hrec).
+    rewrite (with_cursor_on v it r e _ (di_bytes _ Hd) Hrec Hsec).
+    match goal with |- context [m_set_ip ip (v, ?c)] => set (cur := c) end.
+    destruct (set_ip_outcome v cur ip qls qt lA lN lR r x Hd Rd Hin eq_refl eq_refl) as [(s2 & ->)|(e2 & ->)]; [left; eauto|].
+    right. exists e2. reflexivity.
+Qed.
+
+Theorem hops3_tol_total : forall ops v it, dinv v -> is_response (pp_packet v) -> it_section it <> SQuestion -> ok_along_tol ops (v, it) ->
+  exists s', run_hops3_tol ops (v, it) = (s', Ok tt) /\ dinv (fst s') /\ snd s' = it /\ is_response (pp_packet (fst s')).
+Proof.
+  induction ops as [|o ops IH]; intros v it Hd Hr Hsec Hok; cbn [run_hops3_tol].
+  - exists (v, it). auto.
+  - cbn [ok_along_tol fst] in Hok. destruct Hok as [Ho Hrest].
+    destruct (hop3_outcome o v it Hd Hr Hsec Ho) as [(s1 & E)|(e & E)]; rewrite E in Hrest |- *.
+    + destruct (hop3_keeps_dinv o v it s1 Hd Hr Hsec Ho E) as (Hd1 & Hit1 & Hr1).
+      destruct s1 as [v1 it1]. cbn [fst snd] in *. subst it1. exact (IH v1 it Hd1 Hr1 Hsec Hrest).
+    + exact (IH v it Hd Hr Hsec Hrest).
 Qed.
